@@ -327,6 +327,22 @@ class FrameEval:
             if ty == ("*", "*"):
                 return NC.ident().scale(A.atom(f"{last}(1)"))
             return self.new_letter(ty, True, last[:3].capitalize())
+        # a small straight-line helper of the repository: evaluate its value with the arguments substituted
+        try:
+            from .common import _callee_scope, _bind_args, inline_value, _Subst
+            import copy
+            callee = _callee_scope(e.func, self.scope)
+            if callee is not None and callee.kind == "function" and callee.cls is None:
+                m_ = _bind_args(e, callee)
+                val_ = inline_value(callee, 0) if m_ is not None else None
+                if val_ is not None:
+                    sub_ = ast.fix_missing_locations(_Subst(m_).visit(copy.deepcopy(val_)))
+                    # slices of a state / increment vector that are reshaped to 3x3 are the tensor the name is bound to
+                    tens_ = {k for k, x in self.env.items() if isinstance(x, NC)}
+                    sub_ = _StateSub(tens_).visit(sub_)
+                    return self.ev(sub_)
+        except (Unknown, RecursionError):
+            pass
         # a scalar function of scalars is invariant whatever it computes
         try:
             vals = [self.ev(a) for a in args]
